@@ -32,6 +32,7 @@ func runC06(p *Prog, r *Report) {
 	c6DropSites(p, r)
 	c6MarkerCoverage(p, r)
 	c6ShortCircuit(p, r)
+	c6ConditionKind(p, r)
 	c6Table(p, r)
 	c6Helper(p, r)
 	c6Scope(p, r)
@@ -1080,4 +1081,141 @@ func c6Scope(p *Prog, r *Report) {
 		r.Check(strings.Join(got, ",") == strings.Join(w, ","), rule, q+":"+n.Obj().Name(), p.pos(cc.Pos()), "computed as ["+strings.Join(got, " && ")+"]",
 			"scope kind "+n.Obj().Name()+" is resolved as ["+strings.Join(got, ",")+"], the language prescribes ["+strings.Join(w, ",")+"]")
 	}
+}
+
+// R6.6 the residual keeps the clause kind: every condition PartialPolicy puts into the residual policy is either the
+// original clause or a new clause whose kind (when / unless) is read from the original clause. A constant kind turns a
+// partially evaluated `unless { … }` into a `when { … }`, i.e. inverts it.
+func c6ConditionKind(p *Prog, r *Report) {
+	const rule = "R6.6-condition-kind"
+	fn := p.fn(pEval, "PartialPolicy")
+	if fn == nil {
+		r.Anchor(rule, "eval.PartialPolicy")
+		return
+	}
+	q := fnQual(fn)
+	// the clause being visited: the element of the range over p.Conditions
+	isFromClause := func(v ssa.Value) bool {
+		for _, l := range leavesOf(v) {
+			if ld, ok := l.(*ssa.UnOp); ok && ld.Op == token.MUL {
+				l = ld.X
+			}
+			_ = l
+		}
+		// a load of field Condition of something that is an element of a []ConditionType
+		found := false
+		var walk func(x ssa.Value, d int)
+		walk = func(x ssa.Value, d int) {
+			if d > 6 || found {
+				return
+			}
+			switch y := x.(type) {
+			case *ssa.UnOp:
+				walk(y.X, d+1)
+			case *ssa.FieldAddr:
+				if _, f := fieldAddrName(y); f == "Condition" {
+					if _, isIdx := baseOf(y.X).(*ssa.IndexAddr); isIdx {
+						found = true
+						return
+					}
+					// element copied into a local first
+					walk(y.X, d+1)
+				}
+			case *ssa.Field:
+				if st := structOf(y.X.Type()); st != nil && st.Field(y.Field).Name() == "Condition" {
+					walk(y.X, d+1)
+				}
+			case *ssa.Alloc:
+				if y.Referrers() != nil {
+					for _, rf := range *y.Referrers() {
+						if st, ok := rf.(*ssa.Store); ok && st.Addr == ssa.Value(y) {
+							walk(st.Val, d+1)
+						}
+					}
+				}
+			case *ssa.IndexAddr:
+				if sl, ok := y.X.Type().Underlying().(*types.Slice); ok && typeIs(sl.Elem(), pXAst, "ConditionType") {
+					found = true
+				}
+			case *ssa.ChangeType:
+				walk(y.X, d+1)
+			case *ssa.Convert:
+				walk(y.X, d+1)
+			}
+		}
+		walk(v, 0)
+		return found
+	}
+	n := 0
+	forEachInstr(fn, func(in ssa.Instruction) {
+		app, ok := in.(*ssa.Call)
+		if !ok || !isBuiltin(&app.Call, "append") {
+			return
+		}
+		sl, ok := app.Type().Underlying().(*types.Slice)
+		if !ok || !typeIs(sl.Elem(), pXAst, "ConditionType") {
+			return
+		}
+		n++
+		construct := q + ":residual-clause#" + itoa(n)
+		fields, _, ok := appendedStructFields(app)
+		if ok && fields["Condition"] == nil && fields["Body"] == nil {
+			ok = false // not a literal built here: a copy of something (the original clause)
+		}
+		if ok {
+			k := fields["Condition"]
+			r.Check(k != nil && isFromClause(k), rule, construct, p.pos(app.Pos()), "the new clause takes its kind from the original clause",
+				"a residual clause is built with a kind that is not read from the original clause (constant or missing): a partially evaluated `unless` body would come back as `when`, which inverts the condition")
+			return
+		}
+		// not a literal: the original clause itself, or the result of a helper
+		elem := appendedSingle(app)
+		if elem != nil {
+			if c, isCall := elem.(*ssa.Call); isCall {
+				passes := false
+				for _, a := range c.Call.Args {
+					if isFromClause(a) {
+						passes = true
+					}
+				}
+				r.Check(passes, rule, construct, p.pos(app.Pos()), "the helper that builds the clause is given the original clause's kind",
+					"a residual clause is built by "+calleeName(c)+" without being given the original clause's kind: a partially evaluated `unless` body would come back as `when`")
+				return
+			}
+			// the original element copied over
+			r.Check(wholeClause(elem), rule, construct, p.pos(app.Pos()), "the original clause is kept as it is", "what is appended to the residual conditions is neither a clause built here nor the original clause")
+			return
+		}
+		r.Undec(rule, construct, p.pos(app.Pos()), "cannot see what is appended to the residual conditions")
+	})
+	r.Check(n >= 3, rule, q+":sites", p.pos(fn.Pos()), itoa(n)+" places append a clause to the residual policy", "expected at least 3 appends of residual clauses in PartialPolicy, found "+itoa(n))
+}
+
+// wholeClause: v is (a copy of) an element of a []ConditionType.
+func wholeClause(v ssa.Value) bool {
+	seen := map[ssa.Value]bool{}
+	var walk func(x ssa.Value, d int) bool
+	walk = func(x ssa.Value, d int) bool {
+		if d > 6 || seen[x] {
+			return false
+		}
+		seen[x] = true
+		switch y := x.(type) {
+		case *ssa.UnOp:
+			return walk(y.X, d+1)
+		case *ssa.IndexAddr:
+			sl, ok := y.X.Type().Underlying().(*types.Slice)
+			return ok && typeIs(sl.Elem(), pXAst, "ConditionType")
+		case *ssa.Alloc:
+			if y.Referrers() != nil {
+				for _, rf := range *y.Referrers() {
+					if st, ok := rf.(*ssa.Store); ok && st.Addr == ssa.Value(y) && walk(st.Val, d+1) {
+						return true
+					}
+				}
+			}
+		}
+		return false
+	}
+	return walk(v, 0)
 }
